@@ -213,8 +213,8 @@ def st_interval(draw, kind=None):
 
 
 @st.composite
-def st_spec(draw, interval_kind=None, max_reps=40, allow24=True):
-    mode = draw(G.MODE_WEIGHTED)
+def st_spec(draw, interval_kind=None, max_reps=40, allow24=True, mode=None):
+    mode = mode or draw(G.MODE_WEIGHTED)
     cm = R.canon(mode)
     fmt = draw(st.sampled_from([1, 3, 3, 4, 4]))
     reps = draw(st.one_of(st.none(), st.sampled_from([1, 2, 2, 3, 5]),
